@@ -447,6 +447,44 @@ def judge(it, real):
 # evaluation
 # ---------------------------------------------------------------------------------------
 
+def live_history(dev, pc, radix, labels, text, earlier=None):
+    """The same statement on ONE long-lived assembler whose shared AddressParser was configured differently before
+    (another default radix, the same label names bound elsewhere, edited IN PLACE as the monitor's radix / add_label /
+    delete_label do): -> (earlier configuration, result of the second assembly).  What a statement assembles to is a
+    function of the statement, the address and the parser's configuration NOW."""
+    from py65.assembler import Assembler
+    from py65.utils.addressing import AddressParser
+    mpu = ac.mpu_of(dev)
+    am = (1 << mpu.ADDR_WIDTH) - 1
+    import zlib
+    h = zlib.crc32(repr((dev, pc, radix, labels, text)).encode('utf-8', 'replace'))
+    radix2 = [r for r in (16, 10, 8, 2) if r != radix][h % 3]
+    labels2 = tuple((k, (v + 1 + (h >> 3) % 300) & am) for k, v in labels)
+    if labels and (h >> 12) % 4 == 0:
+        labels2 = labels2[1:]
+    if earlier is not None:
+        radix2, labels2 = earlier['radix'], tuple(tuple(x) for x in earlier['labels'])
+    try:
+        parser = AddressParser(maxwidth=mpu.ADDR_WIDTH, radix=radix2, labels=dict(labels2))
+    except OverflowError:
+        return None
+    a = Assembler(mpu, parser)
+    try:
+        a.assemble(text, pc)
+    except BaseException:  # noqa: B902
+        pass
+    parser.radix = radix
+    for k in list(parser.labels):
+        del parser.labels[k]
+    for k, v in labels:
+        parser.labels[k] = v
+    try:
+        second = 'ok ' + ','.join(str(b) for b in a.assemble(text, pc))
+    except BaseException as ex:  # noqa: B902
+        second = ac.canon_exc(ex)
+    return dict(radix=radix2, labels=[list(x) for x in labels2]), second
+
+
 def evaluate(items, total):
     lines = [ac.asm_line(*it['case']) for it in items]
     model = run_driver(lines)
@@ -486,6 +524,20 @@ def evaluate(items, total):
                     key=key, what='%s pc=%d radix=%d labels=%r statement=%r: %s' % (dev, pc, radix, dict(labels), text, msg),
                     replay=dict(case=list(it['case']), abstract=it['abstract'], promised=it['promised'], real=re_,
                                 model=mo, request=ln, stream=st)))
+        if total['n'] % 4 == 0 and not re_.startswith('other:init'):
+            lh = live_history(dev, pc, radix, labels, text)
+            total['outcomes']['live-assembler histories'] = total['outcomes'].get('live-assembler histories', 0) + 1
+            if lh is not None and lh[1] != re_:
+                ks = json.dumps(dict(kind='history-dependent', device=dev), sort_keys=True)
+                total['nfind'][ks] = total['nfind'].get(ks, 0) + 1
+                if total['nfind'][ks] <= 4:
+                    total['findings'].append(dict(
+                        key=dict(kind='history-dependent', device=dev),
+                        what='%s pc=%d radix=%d labels=%r statement=%r: a long-lived assembler that assembled the same text before '
+                             'under radix=%d labels=%r (parser then re-configured in place) gives %s, a fresh one gives %s'
+                             % (dev, pc, radix, dict(labels), text, lh[0]['radix'], dict(map(tuple, lh[0]['labels'])), lh[1], re_),
+                        replay=dict(case=list(it['case']), abstract=it['abstract'], promised=it['promised'], real=re_,
+                                    model=mo, request=ln, stream=st, live=dict(earlier=lh[0], second=lh[1]))))
         if outcome == 'ok' and st not in total['sampled'] and len(text) > 6:
             total['sampled'].add(st)
             total['samples'].append(dict(request=ln, statement=text, device=dev, pc=pc, real=re_, model=mo, stream=st))
@@ -647,6 +699,13 @@ def replay(ctx, path):
     print('real     :', re_)
     print('model    :', mo)
     bad = False
+    if it is not None and rp.get('live'):
+        lh = live_history(*it['case'], earlier=rp['live'].get('earlier'))
+        print('history  : the same text first under %r, then the parser re-configured in place -> %s (a fresh assembler: %s)'
+              % (lh[0] if lh else None, lh[1] if lh else None, re_))
+        if lh is not None and lh[1] != re_:
+            print('DIFF     : [property] what the statement assembles to depends on what the assembler assembled before')
+            bad = True
     if it is not None:
         docs, why, strict = denoted(*it['case'])
         print('denotes  : %s -> documented %s%s' % (why, docs or 'refusal', '' if strict else ' (lenient reading)'))
